@@ -11,6 +11,7 @@ orientation reversal and invariant under cyclic relabelling - both are obligatio
 from __future__ import annotations
 
 import ast
+import re
 from math import factorial
 
 import numpy as np
@@ -382,20 +383,26 @@ def _forwards(run, ix):
             call = n
     if call is None:
         raise AnalysisError("anchor vanished: triangles.mass_properties(...) call in Trimesh.mass_properties")
-    kws = {k.arg: ast.unparse(k.value) for k in call.keywords}
-    local = {}
-    for st in f.node.body:
-        if isinstance(st, ast.Assign) and isinstance(st.targets[0], ast.Name):
-            local[st.targets[0].id] = ast.unparse(st.value)
+    from ..provenance import Prov
+    pv = Prov(ix, f)
+
+    def norm(t):
+        # dict.get(k, None) is dict.get(k)
+        return re.sub(r"\.get\(('[^']*'), None\)", r".get(\1)", t) if t is not None else t
+
+    callee, pos, kws = pv.canon_call(call, pv.stmt_of(call))
+    pnames = ix.func("trimesh.triangles:mass_properties").params
+    for i, v in enumerate(pos):
+        if i < len(pnames):
+            kws.setdefault(pnames[i], v)
     expect = {
-        "triangles": ["self.triangles"],
-        "crosses": ["self.triangles_cross"],
-        "density": ["self._data.data.get('density', None)", "self._data.get('density', None)", "self._data.data.get('density')"],
-        "center_mass": ["self._data.data.get('center_mass', None)", "self._data.get('center_mass', None)", "self._data.data.get('center_mass')"],
+        "triangles": ["P_self.triangles"],
+        "crosses": ["P_self.triangles_cross"],
+        "density": ["P_self._data.data.get('density')", "P_self._data.get('density')", "P_self._data['density']"],
+        "center_mass": ["P_self._data.data.get('center_mass')", "P_self._data.get('center_mass')", "P_self._data['center_mass']"],
     }
     for k, allowed in expect.items():
-        v = kws.get(k)
-        v = local.get(v, v)
+        v = norm(kws.get(k))
         ok = v in allowed
         run.obligation("O7", f.where, f"mass_properties passes {k}={v}", ok)
         if not ok:
@@ -407,33 +414,28 @@ def _forwards(run, ix):
     if not ok:
         run.violation("O7", f.where, "Trimesh.mass_properties skips the inertia tensor", key=key_of("C03-O7", "skip"))
     simple = {
-        "trimesh.base:Trimesh.triangles_cross": ["triangles.cross(self.triangles)"],
-        "trimesh.base:Trimesh.area_faces": ["triangles.area(crosses=self.triangles_cross)", "triangles.area(self.triangles)",
-                                            "triangles.area(triangles=self.triangles)"],
-        "trimesh.base:Trimesh.volume": ["self.mass_properties.volume", "self.mass_properties['volume']"],
-        "trimesh.base:Trimesh.mass": ["self.mass_properties.mass", "self.mass_properties['mass']"],
-        "trimesh.base:Trimesh.center_mass": ["self.mass_properties.center_mass", "self.mass_properties['center_mass']"],
-        "trimesh.base:Trimesh.moment_inertia": ["self.mass_properties.inertia", "self.mass_properties['inertia']"],
-        "trimesh.base:Trimesh.triangles": ["self.vertices.view(np.ndarray)[self.faces]", "self.vertices[self.faces]"],
+        "trimesh.base:Trimesh.triangles_cross": ["trimesh.triangles.cross(P_self.triangles)", "trimesh.triangles.cross(triangles=P_self.triangles)"],
+        "trimesh.base:Trimesh.area_faces": ["trimesh.triangles.area(crosses=P_self.triangles_cross)", "trimesh.triangles.area(P_self.triangles)",
+                                            "trimesh.triangles.area(triangles=P_self.triangles)",
+                                            "trimesh.triangles.area(crosses=P_self.triangles_cross, triangles=P_self.triangles)"],
+        "trimesh.base:Trimesh.volume": ["P_self.mass_properties.volume", "P_self.mass_properties['volume']"],
+        "trimesh.base:Trimesh.mass": ["P_self.mass_properties.mass", "P_self.mass_properties['mass']"],
+        "trimesh.base:Trimesh.center_mass": ["P_self.mass_properties.center_mass", "P_self.mass_properties['center_mass']"],
+        "trimesh.base:Trimesh.moment_inertia": ["P_self.mass_properties.inertia", "P_self.mass_properties['inertia']"],
+        "trimesh.base:Trimesh.triangles": ["P_self.vertices.view(numpy.ndarray)[P_self.faces]", "P_self.vertices[P_self.faces]"],
     }
     for spec, allowed in simple.items():
         fi = ix.func(spec)
-        rets = []
-        loc = {}
-        for st in ast.walk(fi.node):
-            if isinstance(st, ast.Assign) and isinstance(st.targets[0], ast.Name):
-                loc[st.targets[0].id] = ast.unparse(st.value)
-        for r in ast.walk(fi.node):
-            if isinstance(r, ast.Return) and r.value is not None:
-                t = ast.unparse(r.value)
-                rets.append(loc.get(t, t))
+        pf = Prov(ix, fi)
+        rets = [pf.canon(r.value, r) for r in ast.walk(fi.node) if isinstance(r, ast.Return) and r.value is not None and pf.stmt_of_return(r) is not None]
         ok = len(rets) >= 1 and all(r in allowed for r in rets)
         run.obligation("O7", fi.where, f"returns {rets}", ok)
         if not ok:
             run.violation("O7", fi.where, f"{spec.split(':')[1]} returns {rets}; expected the forward {allowed[0]}", key=key_of("C03-O7", spec))
     fi = ix.func("trimesh.base:Trimesh.area")
-    txt = ast.unparse(fi.node)
-    ok = "self.area_faces.sum()" in txt
+    pf = Prov(ix, fi)
+    rets = [pf.canon(r.value, r) for r in ast.walk(fi.node) if isinstance(r, ast.Return) and r.value is not None]
+    ok = bool(rets) and all(r in ("P_self.area_faces.sum()", "numpy.sum(P_self.area_faces)", "sum(P_self.area_faces)") for r in rets)
     run.obligation("O7", fi.where, "area == sum of face areas", ok)
     if not ok:
         run.violation("O7", fi.where, "Trimesh.area is not the sum of area_faces", key=key_of("C03-O7", "area"))
